@@ -76,7 +76,8 @@ func (x *DotExpr) Eval(ctx context.Context, local Scope) (_ Value, err error) {
 				case *NativeFunction:
 					return SetCall(ctx, f, nil)
 				default:
-					panic(fmt.Errorf("not a function: %v", f))
+					return nil, WrapContextErr(errors.Errorf(
+						"attr %q is not a function: %v", "&"+x.attr, f), x, local)
 				}
 			}
 		}
